@@ -4,6 +4,7 @@ import (
 	"context"
 	"io"
 	gofs "io/fs"
+	"os"
 
 	"github.com/tonistiigi/fsutil/types"
 	"github.com/tonistiigi/fsutil/zz_verif/v"
@@ -98,6 +99,7 @@ func VH_C11_hardlinks() {
 	t := &treeFS{}
 	group := map[string]int{}
 	firstOf := map[int]string{}
+	modeOf := map[int]uint32{}
 	ng := 0
 	for _, p := range paths {
 		e := &treeEnt{path: p, isDir: isDir[p]}
@@ -106,10 +108,23 @@ func VH_C11_hardlinks() {
 			if g == ng {
 				ng++
 				firstOf[g] = p
-				e.data = v.Bytes("data", 1)
+				// the inode is a regular file, a fifo or a character device (the walker reports
+				// every non-directory inode with several names as a link group)
+				switch v.Choose("class", 3) {
+				case 0:
+					e.data = v.Bytes("data", 1)
+				case 1:
+					e.mode = uint32(os.ModeNamedPipe) | 0644
+				case 2:
+					e.mode = uint32(os.ModeDevice|os.ModeCharDevice) | 0600
+				}
+				modeOf[g] = e.mode
 			} else {
-				e.link = firstOf[g]
+				e.link, e.mode = firstOf[g], modeOf[g]
 				v.Cover("link")
+				if e.mode != 0 {
+					v.Cover("special-link")
+				}
 			}
 			group[p] = g
 		}
@@ -151,6 +166,9 @@ func VH_C11_hardlinks() {
 	v.Assert(err == nil, "walk of the reset view succeeds")
 	// a promoted member serves the bytes of the group
 	for g, p := range firstVisible {
+		if modeOf[g] != 0 {
+			continue
+		}
 		rc, err := view.Open(p)
 		v.Assert(err == nil, "the first visible member can be opened")
 		if err == nil {
